@@ -37,7 +37,7 @@ GUARDS = [("hand", 1, "a late remote sub-task is listed after its younger siblin
           ("hand", 2, "of_type raises for unfinished actions"),
           ("hand", 3, "interleaved tasks with equal-typed ancestor and descendant exist"),
           ("hand", 4, "of_type restricted to top-level actions differs from of_type")]
-PROGRAMS = {"quick": [("mixed", 500, 14), ("wide", 40, 60), ("fan", 25, 3), ("blocks", 200, 12)],
+PROGRAMS = {"quick": [("mixed", 400, 14), ("wide", 40, 60), ("fan", 25, 3), ("blocks", 200, 12)],
             "thorough": [("mixed", 6000, 16), ("wide", 500, 90), ("fan", 300, 3), ("blocks", 2000, 14), ("deep", 1000, 24)]}
 
 
@@ -354,7 +354,7 @@ def run(prop, tier):
         # verdict on a sample of the recorded answers), the vacuity guards, and the programs (real library, then TLC)
         jobs = GEN[tier]
         guards = GUARDS if tier == "thorough" else [GUARDS[0], GUARDS[3]]
-        sample = 400 if tier == "quick" else 2000
+        sample = 250 if tier == "quick" else 2000
         progs = random_programs(tier)
 
         def universe_job(name, over):
